@@ -136,6 +136,24 @@ Theorem C02_lowering_is_the_sources : forall k, exists cls par ver rec ser,
 Proof. exact lowering_tie. Qed.
 Print Assumptions C02_lowering_is_the_sources.
 
+(* ... stated about the model's planner step itself: at the second visit of a task, pstep appends ONE operation for it whose
+   attributes are those of the translated row of the task's kind, and records a create_new_version call exactly when the row
+   says so *)
+Theorem C02_second_visit_is_the_sources : forall info sr again s i stk s',
+  stack s = i :: stk ->
+  lt_second (nth i (store s) dummy_lt) = true ->
+  pstep info sr again s = Some s' ->
+  let t := lt_task (nth i (store s) dummy_lt) in
+  let k := t_kind (info t) in
+  exists cls par ver rec ser oi,
+    lowering_row k = Some (kind_code k, (cls, par, ver, rec, ser)) /\
+    ops s' = ops s ++ [oi] /\ op_task oi = t /\
+    op_par oi = par && t_par (info t) /\
+    op_sync oi = negb (N.eqb cls 0) /\
+    nv_calls s' = (if ver then nv_calls s ++ [t] else nv_calls s).
+Proof. exact lowering_tie_pstep. Qed.
+Print Assumptions C02_second_visit_is_the_sources.
+
 (* ... and how the closure is walked (the dependency loop of the FIRST visit, TRANSLATED from planner.py on every run): the
    dependencies are taken in reversed declaration order (the model's pstep hands `rev (t_deps ...)` to push_deps; the
    translator refuses any other iteration); a dependency that was already visited is LINKED to the visited lowering and not
